@@ -29,12 +29,19 @@ def run(P, R, tier):
     cn = P.func(MOD, 'DaskGeoDataFrame._compute_packing_npartitions')
     # ---------------------------------------------------------------- C09.a
     g, geom = astq.unique_def(wh, 'geometry')
-    lam = [l for l in wh.lambdas]
+    lam = [l for l in wh.lambdas] + list(wh.nested.values())
+    for g_ in [wh] + lam:
+        for c_ in ast.walk(g_.node):
+            if isinstance(c_, ast.Call) and isinstance(c_.func, ast.Attribute) and c_.func.attr in ('join', 'merge') or \
+                    (isinstance(c_, ast.Call) and norm(c_.func).endswith('concat') and any(k.arg == 'axis' and norm(k.value) == '1' for k in c_.keywords)):
+                R.bad('C09.a', g_, c_, f'`{norm(c_)[:90]}` attaches the distances by an index-LABEL join: with a non-unique index rows are multiplied and paired with other rows\' distances')
     R.floor('C09.a', 'per-partition functions in _with_hilbert_distance_column', len(lam), 1)
     l = lam[0]
     call = None
-    for x in ast.walk(l.node.body):
-        if isinstance(x, ast.Call) and isinstance(x.func, ast.Attribute) and x.func.attr == 'hilbert_distance' and norm(x.func.value) == l.params[0]:
+    body_nodes = ast.walk(l.node.body) if isinstance(l.node, ast.Lambda) else ast.walk(l.node)
+    for x in body_nodes:
+        if isinstance(x, ast.Call) and isinstance(x.func, ast.Attribute) and x.func.attr == 'hilbert_distance' and \
+                (norm(x.func.value) == l.params[0] or norm(x.func.value).startswith(l.params[0] + '[') or norm(x.func.value).startswith(l.params[0] + '.')):
             call = x
     ok = call is not None
     R.check(ok, 'C09.a', wh, l.node, 'each partition computes hilbert_distance of its own rows', 'the per-partition function does not call hilbert_distance on its partition')
@@ -53,6 +60,10 @@ def run(P, R, tier):
         R.check(pv is not None and norm(pv) == wh.params[1], 'C09.a', wh, call, 'the caller\'s p reaches hilbert_distance', f'p passed to hilbert_distance is `{norm(pv) if pv is not None else None}`')
     mp = [c for c in astq.own_calls(wh) if isinstance(c.func, ast.Attribute) and c.func.attr == 'map_partitions']
     okm = bool(mp) and isinstance(astq.trace(wh, mp[0].func.value), ast.AST) and norm(astq.trace(wh, mp[0].func.value)) == 'self.geometry'
+    if not okm and mp and call is not None and isinstance(call.func.value, ast.Subscript):
+        # frame-wise form: df[<name of the active geometry>].hilbert_distance(...)
+        key = astq.trace(wh, call.func.value.slice)
+        okm = isinstance(key, ast.AST) and norm(key) in ('self.geometry.name', 'geometry.name') and norm(mp[0].func.value) == 'self'
     R.check(okm, 'C09.a', wh, mp[0] if mp else None, 'distances are computed from the active geometry (self.geometry)', 'distances are not computed from self.geometry')
     asg = [c for c in astq.own_calls(wh) if isinstance(c.func, ast.Attribute) and c.func.attr == 'assign' and norm(c.func.value) == 'self']
     colnames = [k.arg for c in asg for k in c.keywords]
